@@ -770,6 +770,12 @@ PROPS['C14']['stages'].append(
           wrapper=['valgrind', '-q', '--error-exitcode=0', '--log-file={bdir}/memcheck.{i}', '--track-origins=no'],
           args={'thorough': ['--extra', 'fuzz', '--cases', '24000']}, post=memcheck_post, env={'VH_NO_PREFILL': '1'},
           needs_min={'decodes_judged': 20000}, timeout={'thorough': 3600}))
+PROPS['C14']['stages'].append(
+    Stage('memcheck-quick', ['harness/wav.c'], WAV, preset='plain', nproc=8, tiers=('quick',),
+          wrapper=['valgrind', '-q', '--error-exitcode=0', '--log-file={bdir}/memcheck.{i}', '--track-origins=no'],
+          args={'quick': ['--extra', 'fuzz', '--cases', '2400']}, post=memcheck_post, env={'VH_NO_PREFILL': '1'},
+          needs_min={'decodes_judged': 2000}, timeout={'quick': 900}))
+PROPS['C14']['rule'] += (' memcheck-quick: 2400 such cases in the quick tier.')
 PROPS['C14']['rule'] += (' memcheck (thorough): 24000 of the same fuzz cases under valgrind memcheck on a non-ASan build '
                          '(use of uninitialised values in the decoder and helper functions).')
 
